@@ -491,31 +491,59 @@ Section Transformers.
     intros H. inv H. unfold has_kind. cbn. discriminate.
   Qed.
 
-  Lemma run_gens_framed secret gens : forall srcs m m',
-    Forall2 framed srcs m -> run_gens secret gens m = Ok m' ->
-    exists k, Forall2 framed (srcs ++ repeat None k) m'.
+  (* generators that only create (behaviour unspecified or create): merge / replace rewrite the data of an
+     existing resource, which no frame statement can survive *)
+  Definition creates (g : pgen) : Prop :=
+    Generators.new_behavior (pg_behavior g) = Generators.BUnspecified \/
+    Generators.new_behavior (pg_behavior g) = Generators.BCreate.
+
+  Lemma create_action n b :
+    b = Generators.BUnspecified \/ b = Generators.BCreate ->
+    Generators.absorb_action n b = Generators.AAppend \/ Generators.absorb_action n b = Generators.AError.
   Proof.
-    induction gens as [|g t IH]; intros srcs m m' HF H; cbn [run_gens] in H.
-    - inv H. exists 0. cbn. now rewrite app_nil_r.
-    - destruct (gen_resource secret g) as [r| | |] eqn:EG; cbn [bind] in H; try discriminate.
-      destruct (absorb_create cs m r) as [m1| | |] eqn:EA; cbn [bind] in H; try discriminate.
-      unfold absorb_create in EA. destruct (no_any_id_match cs (cur_id cs r) m) as [free| | |]; cbn [bind] in EA; try discriminate.
-      destruct free; [|discriminate]. apply append_one_spec in EA as [-> _].
-      assert (HF1 : Forall2 framed (srcs ++ [None]) (m ++ [r])).
-      { apply Forall2_app; [exact HF|]. constructor; [|constructor]. split; [eapply gen_resource_has_kind; eauto|exact I]. }
-      destruct (IH _ _ _ HF1 H) as (k & Hk). exists (S k). rewrite <- app_assoc in Hk. exact Hk.
+    intros [->| ->]; destruct n as [|[|n]]; vm_compute; auto.
   Qed.
 
-  Lemma run_generators_framed d srcs m m' :
-    Forall2 framed srcs m -> run_generators d m = Ok m' -> exists k, Forall2 framed (srcs ++ repeat None k) m'.
+  Lemma absorb_create_spec m b r m' :
+    b = Generators.BUnspecified \/ b = Generators.BCreate ->
+    absorb nonstr m b r = Ok m' -> m' = (m ++ [r])%list.
   Proof.
+    intros Hb H. unfold absorb in H.
+    destruct (matching_any (cur_id cs r) 0 m) as [ms| | |]; cbn [bind] in H; try discriminate.
+    destruct (create_action (List.length ms) b Hb) as [E|E]; rewrite E in H; [|discriminate].
+    apply append_one_spec in H as [-> _]. reflexivity.
+  Qed.
+
+  Lemma run_gens_framed secret gens : forall srcs m m',
+    Forall creates gens ->
+    Forall2 framed srcs m -> run_gens nonstr secret gens m = Ok m' ->
+    exists k, Forall2 framed (srcs ++ repeat None k) m'.
+  Proof.
+    induction gens as [|g t IH]; intros srcs m m' Hc HF H; cbn [run_gens] in H.
+    - inv H. exists 0. cbn. now rewrite app_nil_r.
+    - inversion Hc as [|? ? Hg Ht]; subst.
+      destruct (gen_resource secret g) as [r| | |] eqn:EG; cbn [bind] in H; try discriminate.
+      destruct (absorb nonstr m _ r) as [m1| | |] eqn:EA; cbn [bind] in H; try discriminate.
+      apply (absorb_create_spec _ _ _ _ Hg) in EA. subst m1.
+      assert (HF1 : Forall2 framed (srcs ++ [None]) (m ++ [r])).
+      { apply Forall2_app; [exact HF|]. constructor; [|constructor]. split; [eapply gen_resource_has_kind; eauto|exact I]. }
+      destruct (IH _ _ _ Ht HF1 H) as (k & Hk). exists (S k). rewrite <- app_assoc in Hk. exact Hk.
+  Qed.
+
+  Definition gens_create (d : pdirs) : Prop := Forall creates (pd_cmgens d) /\ Forall creates (pd_secgens d).
+
+  Lemma run_generators_framed d srcs m m' :
+    gens_create d ->
+    Forall2 framed srcs m -> run_generators nonstr d m = Ok m' -> exists k, Forall2 framed (srcs ++ repeat None k) m'.
+  Proof.
+    intros [Hc1 Hc2].
     unfold run_generators. generalize gen_generator_order. intros ks. revert srcs m m'.
     induction ks as [|k t IH]; intros srcs m m' HF H; cbn [run_generator_kinds] in H.
     - inv H. exists 0. cbn. now rewrite app_nil_r.
     - match type of H with bind ?E _ = _ => destruct E as [mm| | |] eqn:E1 end; cbn [bind] in H; try discriminate.
       assert (exists k1, Forall2 framed (srcs ++ repeat None k1) mm) as (k1 & H1).
-      { destruct (String.eqb k "ConfigMapGenerator"); [eapply run_gens_framed; eauto|].
-        destruct (String.eqb k "SecretGenerator"); [eapply run_gens_framed; eauto|].
+      { destruct (String.eqb k "ConfigMapGenerator"); [exact (run_gens_framed _ _ _ _ _ Hc1 HF E1)|].
+        destruct (String.eqb k "SecretGenerator"); [exact (run_gens_framed _ _ _ _ _ Hc2 HF E1)|].
         inv E1. exists 0. cbn. now rewrite app_nil_r. }
       destruct (IH _ _ _ H1 H) as (k2 & H2). exists (k1 + k2). rewrite <- app_assoc, <- repeat_app in H2. exact H2.
   Qed.
@@ -527,10 +555,11 @@ End Transformers.
 (* ---------- accumulation ---------- *)
 
 (* the domain of the theorem: every input document has a `kind` (the factory rejects documents without one)
-   and no `labels` entry carries custom `fields` (those may target anything) *)
+   no `labels` entry carries custom `fields` (those may target anything), and every generator creates
+   (behaviour merge / replace rewrites the data of an existing resource) *)
 Inductive tree_ok : ptree -> Prop :=
 | ok_file docs : Forall (fun o => get_at [JKey "kind"] o <> None) docs -> tree_ok (PFile docs)
-| ok_dir n d ents : no_custom_fields d -> Forall tree_ok ents -> tree_ok (PDir n d ents).
+| ok_dir n d ents : no_custom_fields d -> gens_create d -> Forall tree_ok ents -> tree_ok (PDir n d ents).
 
 Section Accumulate.
   Variable nonstr : string -> bool.
@@ -568,12 +597,12 @@ Section Accumulate.
     induction t as [docs|n d ents IH] using ptree_ind'; intros m Hok H.
     - inversion Hok as [? Hk|]; subst. cbn [accumulate] in H. apply append_all_spec in H as [-> _]. cbn [app].
       exists (map Some docs). split; [apply load_framed; exact Hk|apply somes_map_some].
-    - inversion Hok as [|? ? ? Hn He]; subst. rewrite accumulate_dir in H.
+    - inversion Hok as [|? ? ? Hn Hg He]; subst. rewrite accumulate_dir in H.
       destruct (is_empty_kust d ents); [discriminate|].
       destruct (acc_list (accumulate nonstr) ents []) as [m0| | |] eqn:E0; cbn [bind] in H; try discriminate.
-      destruct (run_generators d m0) as [m1| | |] eqn:E1; cbn [bind] in H; try discriminate.
+      destruct (run_generators nonstr d m0) as [m1| | |] eqn:E1; cbn [bind] in H; try discriminate.
       destruct (acc_list_framed ents IH He [] [] m0 (Forall2_nil _) E0) as (s0 & HF0 & Hs0).
-      destruct (run_generators_framed d s0 m0 m1 HF0 E1) as (k & HF1).
+      destruct (run_generators_framed nonstr d s0 m0 m1 Hg HF0 E1) as (k & HF1).
       exists (s0 ++ repeat None k)%list. split.
       + eapply Forall2_framed_keeps; [exact HF1|].
         eapply run_transformers_keeps; [exact Hn|eapply Forall2_framed_has_kind; exact HF1|exact H].
@@ -766,6 +795,6 @@ Example tree_ok_example :
   tree_ok (PDir "top" (mkPDirs "ns" "p-" "" [Labels.mkLD [("a", "b")] true false []] [("c", "d")] [] [] [])
              [PDir "base" no_dirs [PFile [Map [("kind", Scalar TStr SPlain "ConfigMap")]]]]).
 Proof.
-  constructor; [repeat constructor|]. constructor; [|constructor].
-  constructor; [constructor|]. constructor; [|constructor]. constructor. constructor; [cbn; discriminate|constructor].
+  constructor; [repeat constructor|split; constructor|]. constructor; [|constructor].
+  constructor; [constructor|split; constructor|]. constructor; [|constructor]. constructor. constructor; [cbn; discriminate|constructor].
 Qed.
